@@ -617,3 +617,20 @@ theorem solveH_eq (rnd : α → Int) (thr : α) (fuel : Nat) (prune : Bool) (g :
 
 end Phases
 end CR.Heap
+
+/-! ## concrete data for the examples of `CR.Props.C10` -/
+
+namespace CR.Heap
+open CR CR.Examples
+
+/-- a 3-state game: state 0 is probabilistic with one dead (state 1, a sink) and one live
+successor (the final state 2) -/
+def gDead : Game Rat where
+  rewards := #[0, 0, 0]
+  owners := #[.prob, .prob, .prob]
+  tl := #[[tr "" (1/2) 1, tr "" (1/2) 2], [tr "" 1 1], [tr "" 1 2]]
+  finals := [2]
+
+def key (t : Tr Rat) : String × Rat × Nat := (t.act, t.p, t.tgt)
+
+end CR.Heap
